@@ -251,8 +251,11 @@ class Ref:
 
 
 # ------------------------------------------------------------------ generator
+# the application's own functions.  '$eq' and '$eq_type' deliberately differ from the library's built-ins of the same names (which are
+# only defaults an application may pass): whatever the application hands to Checker() is what the schema's calls mean
 USER_FNS = {
-    '$eq': lambda c, args: all(x == c for x in args),
+    '$eq': lambda c, args: len(args) > 0 and any(x is not None and bytes(x) == bytes(c) for x in args),
+    '$eq_type': lambda c, args: all(x is not None and len(bytes(x)) == len(bytes(c)) for x in args),
     '$is_a_or_b': lambda c, args: bytes(c) in (lit('a'), lit('b')),
     '$not': lambda c, args: all(x is None or bytes(x) != bytes(c) for x in args),
 }
@@ -544,6 +547,9 @@ def template_schemas(rng, with_signers):
                               R(k2, [L('L1'), P(p1), L(b)], [[(p1, [L(a)]), (p1, [L(b)])]])]})
         out.append({'rules': [R('#pkt', [L('L0'), P(p2)], None, [k1, k2]), R(k2, [L('L1'), P(p1), L(a)], [[(p1, [L(a), L(b)]), (p1, [L(b), L(c)])]]),
                               R(k1, [L('L1'), P(p1), L(b)], [[(p1, [L(a), L(b), L(b), L(c)])]])]})
+        # a signer-less definition that embeds a signed rule does not inherit that rule's signers (and vice versa)
+        out.append({'rules': [R('#prof', [L('L0'), P(p1)], None, [k1]), R('#note', [('ref', '#prof'), L(a), P('_')]), R(k1, [L('L1'), P(p1)]),
+                              R('#memo', [('ref', '#prof'), L(b)], None, [k2]), R(k2, [L('L2'), P(p1)])]})
         # a rule with a constrained temporary referenced twice (three times) inside one key rule / one packet rule
         out.append({'rules': [R('#seg', [L(a), P('_v')], [[('_v', [L(b), L(c)])]]), R(k1, [L('L1'), ('ref', '#seg'), ('ref', '#seg')]),
                               R('#pkt', [L('L0'), P(p1)], None, [k1])]})
